@@ -321,6 +321,8 @@ type runner struct {
 	addrs []*net.UDPAddr
 	all   []obs
 	cnt   map[string]int
+	start time.Time
+	soft  []softEvent
 }
 
 func (x *runner) inConsensus(n string) bool {
@@ -455,7 +457,35 @@ func (x *runner) applyEvent(e event) {
 	case "set-defaultmap":
 		x.cfg.DefaultMap = e.DefaultMap
 		x.applyDefaultMap()
+	// soft events: no rule, member or node binding changes
+	case "statehash": // the suffrage state hash changes, members unchanged
+		x.mu.Lock()
+		x.stver++
+		x.mu.Unlock()
+	case "reset-clientid": // an identical rule set is set again
+		x.applyClientID()
+	case "reset-nets":
+		x.applyNets()
+	case "reset-nodes":
+		x.applyNodes()
+	case "reset-suffrage":
+		x.applySuffrage()
+	case "reset-defaultmap":
+		x.applyDefaultMap()
 	}
+	if isSoft(e.Kind) {
+		x.soft = append(x.soft, softEvent{int64(time.Since(x.start)), e.Kind})
+	}
+}
+
+// soft events leave every rule, the consensus members and the node bindings
+// as they are; the rule serving a request stays the same rule, so they do not
+// start a new enforcement window.
+func isSoft(kind string) bool { return kind == "statehash" || strings.HasPrefix(kind, "reset-") }
+
+type softEvent struct {
+	t    int64
+	kind string
 }
 
 type keyState struct {
@@ -467,6 +497,7 @@ type keyState struct {
 func (x *runner) run() {
 	r := x.r
 	start := time.Now()
+	x.start = start
 	epoch := 0
 	keys := map[string]*keyState{}
 	order := fnv.New64a()
@@ -582,8 +613,11 @@ func (x *runner) run() {
 				k.events = append(k.events, e.Kind)
 			}
 		}
-		if len(ph.After) > 0 {
-			epoch++
+		for _, e := range ph.After {
+			if !isSoft(e.Kind) {
+				epoch++
+				break
+			}
 		}
 	}
 	r.SetAdd("interleavings_seen", fmt.Sprintf("%x", order.Sum64()))
@@ -682,8 +716,18 @@ func (x *runner) enforcement() {
 						switches++
 					}
 				}
+				var softKinds []string
+				for _, e := range x.soft {
+					if e.t >= allowed[i].Tb && e.t <= maxTa {
+						softKinds = append(softKinds, e.kind)
+					}
+				}
 				sig := "enforce:allowed-exceeds-burst+rate*window:single-rule-run"
 				why := "no request under another rule in between"
+				if len(softKinds) > 0 {
+					sig = "enforce:allowed-exceeds-burst+rate*window:bucket-refilled-while-rule-unchanged:after=" + strings.Join(uniq(softKinds), "+")
+					why = fmt.Sprintf("the rule serving these requests did not change; in between only: %v (suffrage state hash changed with the same members / an identical rule set was set again)", softKinds)
+				}
 				if switches > 0 && count <= float64(switches+1)*float64(burst)+perSec*win+1 {
 					sig = "enforce:allowed-exceeds-burst+rate*window:bucket-refilled-by-interleaved-requests-under-another-rule"
 					why = fmt.Sprintf("%d request(s) from the same address to the same handler were served under another rule in between (e.g. with / without a client id); each switch gave this rule a full burst again", switches)
@@ -876,7 +920,7 @@ func genStream(r *vlib.Run, s int) *stream {
 		}
 		if p < nph-1 && rng.Intn(3) > 0 {
 			var e event
-			switch rng.Intn(8) {
+			switch rng.Intn(11) {
 			case 0, 1:
 				a := rng.Intn(na)
 				nd := st.NodeOf[a]
@@ -899,9 +943,13 @@ func genStream(r *vlib.Run, s int) *stream {
 			case 6:
 				m := g.ruleMap(false)
 				e = event{Kind: "set-suffrage", Suffrage: &m}
-			default:
+			case 7:
 				m := g.ruleMap(false)
 				e = event{Kind: "set-defaultmap", DefaultMap: &m}
+			case 8, 9:
+				e = event{Kind: "statehash"}
+			default:
+				e = event{Kind: []string{"reset-clientid", "reset-nets", "reset-nodes", "reset-suffrage", "reset-defaultmap"}[rng.Intn(5)]}
 			}
 			if e.Unset {
 				e.ClientID, e.Nodes = nil, nil
@@ -962,6 +1010,30 @@ func directed() []*stream {
 	l = append(l, &stream{Name: "directed-alternating-clientid", Addrs: []string{"172.16.0.1:4005"}, NodeOf: []int{-1},
 		Cfg:    config{ClientID: map[string]ruleMapSpec{"c1": rm(slow(1, 30))}, DefaultMap: &ruleMapSpec{D: slow(2, 40)}},
 		Phases: []phase{seq(alt...)}})
+	// enforcement while the rule stays the same rule: the suffrage state hash
+	// changes (members unchanged), identical rule sets are set again
+	rep := func(n int, q reqSpec) []reqSpec {
+		var l []reqSpec
+		for i := 0; i < n; i++ {
+			l = append(l, q)
+		}
+		return l
+	}
+	l = append(l, &stream{Name: "directed-suffrage-statehash-changes", Addrs: []string{"172.16.0.1:4005"}, NodeOf: []int{0}, Consensus: []int{0},
+		Cfg: config{Suffrage: &ruleMapSpec{D: slow(3, 60)}},
+		Phases: []phase{
+			{Goroutines: 1, Reqs: []reqSpec{{0, "hA", "", true}}},
+			{Goroutines: 1, Reqs: rep(6, reqSpec{0, "hA", "", false}), After: []event{{Kind: "statehash"}}},
+			{Goroutines: 1, Reqs: rep(6, reqSpec{0, "hA", "", false}), After: []event{{Kind: "statehash"}}},
+			{Goroutines: 1, Reqs: rep(6, reqSpec{0, "hA", "", false}), After: []event{{Kind: "reset-suffrage"}}},
+			seq(rep(6, reqSpec{0, "hA", "", false})...)}})
+	l = append(l, &stream{Name: "directed-identical-rulesets-set-again", Addrs: []string{"10.1.1.5:4001", "172.16.0.1:4005", "172.16.0.1:4999"}, NodeOf: []int{-1, 0, -1},
+		Cfg: config{ClientID: map[string]ruleMapSpec{"c1": rm(slow(3, 60))}, Nets: net8(), Nodes: map[string]ruleMapSpec{n0: rm(slow(4, 80))}, DefaultMap: &ruleMapSpec{D: slow(2, 40)}},
+		Phases: []phase{
+			{Goroutines: 1, Reqs: []reqSpec{{1, "hA", "", true}}},
+			{Goroutines: 1, Reqs: append(append(append(rep(6, reqSpec{0, "hA", "c1", false}), rep(8, reqSpec{0, "hB", "", false})...), rep(7, reqSpec{1, "hA", "", false})...), rep(5, reqSpec{2, "hA", "", false})...),
+				After: []event{{Kind: "reset-clientid"}, {Kind: "reset-nets"}, {Kind: "reset-nodes"}, {Kind: "reset-defaultmap"}, {Kind: "statehash"}}},
+			seq(append(append(append(rep(6, reqSpec{0, "hA", "c1", false}), rep(8, reqSpec{0, "hB", "", false})...), rep(7, reqSpec{1, "hA", "", false})...), rep(5, reqSpec{2, "hA", "", false})...)...)}})
 	// enforcement: plain bursts, sequential and 8 goroutines
 	var burst []reqSpec
 	for i := 0; i < 30; i++ {
@@ -976,9 +1048,9 @@ func directed() []*stream {
 func TestC36(t *testing.T) {
 	r := vlib.Start(t, "C36", vlib.LevelExploration)
 	defer r.Finish()
-	r.SetRule("case = one stream of ~200 requests through a real RateLimitHandler.Func (fresh handler + RateLimiterRules): random client-id / net / node / suffrage / default-map rule sets (all rule values distinct within a stream; nolimit and zero rules included), 1-6 udp addresses, 2 handler names, client ids {none, c1, c2, unknown}, 4-8 phases that are sequential (client id varies per request) or run by 2-8 goroutines (one client id per addr+handler in that phase), and between phases AddNode / consensus-set change / rule-set replacement; selection judged per request from the RateLimiterResult in the context, enforcement judged per (configuration epoch, addr, handler, reported rule); distinct = hash of the stream; non-trivial = has a request with a client id and a configuration event. Directed streams first.")
+	r.SetRule("case = one stream of ~200 requests through a real RateLimitHandler.Func (fresh handler + RateLimiterRules): random client-id / net / node / suffrage / default-map rule sets (all rule values distinct within a stream; nolimit and zero rules included), 1-6 udp addresses, 2 handler names, client ids {none, c1, c2, unknown}, 4-8 phases that are sequential (client id varies per request) or run by 2-8 goroutines (one client id per addr+handler in that phase), and between phases AddNode / consensus-set change / rule-set replacement / suffrage state hash change with the same members / the identical rule set set again; selection judged per request from the RateLimiterResult in the context, enforcement judged per (configuration epoch, addr, handler, reported rule); distinct = hash of the stream; non-trivial = has a request with a client id and a configuration event. Directed streams first.")
 	r.Assume("a net rule map always resolves for every handler used (which net 'matches' when the first containing net has no rule for the handler is not stated)")
-	r.Assume("enforcement is judged inside one configuration epoch only (no rule-set replacement, AddNode or consensus change in between), against the rule the handler itself reports; bound allowed <= burst + rate*(t_after_last - t_before_first) + 1, so load can only loosen it; 'nolimit allows all' is not demanded by the statement and only counted")
+	r.Assume("enforcement is judged inside one configuration epoch only (no rule-set replacement with other content, AddNode or consensus membership change in between; a suffrage state hash change with unchanged members and setting an identical rule set again do NOT start a new epoch, the rule is the same rule), against the rule the handler itself reports; bound allowed <= burst + rate*(t_after_last - t_before_first) + 1, so load can only loosen it; 'nolimit allows all' is not demanded by the statement and only counted")
 	r.Assume("in concurrent phases all requests of one addr+handler carry the same client id, because the reported RateLimiterResult is read lazily from the limiter object shared per addr+handler")
 	r.Assume("address expiry (shrink daemon) is not running during a stream")
 
@@ -1047,7 +1119,7 @@ func TestC36(t *testing.T) {
 	}
 
 	for i, st := range directed() {
-		runOne(st, i == 0 || i == 5)
+		runOne(st, i == 0 || i == 5 || i == 6)
 	}
 	n := r.N(500, 10000)
 	vlib.Parallel(n, 8, func(s int) {
